@@ -32,7 +32,7 @@ fn ok(r: Result<(), paseto_core::PasetoError>) -> bool {
 
 #[kani::proof]
 #[kani::unwind(4)]
-fn time_exact() {
+pub fn time_exact() {
     let (es, en, ns_, nn, ws, wn): (i64, i32, i64, i32, i64, i32) = kani::any();
     let has_exp: bool = kani::any();
     let has_nbf: bool = kani::any();
@@ -79,7 +79,7 @@ fn plus(a: (i64, i32), l: (u64, u32)) -> (i64, i32) {
 #[kani::proof]
 #[kani::unwind(2)]
 #[kani::stub(alloc::fmt::format, format_stub)]
-fn time_leeway_exact_exp() {
+pub fn time_leeway_exact_exp() {
     let (es, en, ws, wn): (i64, i32, i64, i32) = kani::any();
     let ls: u64 = kani::any();
     let ln: u32 = kani::any();
@@ -100,7 +100,7 @@ fn time_leeway_exact_exp() {
 #[kani::proof]
 #[kani::unwind(2)]
 #[kani::stub(alloc::fmt::format, format_stub)]
-fn time_leeway_narrow_exp() {
+pub fn time_leeway_narrow_exp() {
     let (es, en, ws, wn): (i64, i32, i64, i32) = kani::any();
     let ls: u64 = kani::any();
     let ln: u32 = kani::any();
@@ -119,7 +119,7 @@ fn time_leeway_narrow_exp() {
 #[kani::proof]
 #[kani::unwind(2)]
 #[kani::stub(alloc::fmt::format, format_stub)]
-fn time_leeway_narrow_nbf() {
+pub fn time_leeway_narrow_nbf() {
     let (bs, bn, ws, wn): (i64, i32, i64, i32) = kani::any();
     let ls: u64 = kani::any();
     let ln: u32 = kani::any();
@@ -139,7 +139,7 @@ fn time_leeway_narrow_nbf() {
 #[kani::proof]
 #[kani::unwind(2)]
 #[kani::stub(alloc::fmt::format, format_stub)]
-fn time_leeway_exact_nbf() {
+pub fn time_leeway_exact_nbf() {
     let (bs, bn, ws, wn): (i64, i32, i64, i32) = kani::any();
     let ls: u64 = kani::any();
     let ln: u32 = kani::any();
@@ -158,7 +158,7 @@ fn time_leeway_exact_nbf() {
 #[kani::proof]
 #[kani::unwind(2)]
 #[kani::stub(alloc::fmt::format, format_stub)]
-fn time_leeway_both_and_absent() {
+pub fn time_leeway_both_and_absent() {
     let (es, en, bs, bn, ws, wn): (i64, i32, i64, i32, i64, i32) = kani::any();
     let ls: u64 = kani::any();
     kani::assume(ls < (1u64 << 20));
@@ -182,7 +182,7 @@ fn time_leeway_both_and_absent() {
 
 #[kani::proof]
 #[kani::unwind(4)]
-fn has_expiry_exact() {
+pub fn has_expiry_exact() {
     let mut c = RegisteredClaims::default();
     let has: bool = kani::any();
     if has {
@@ -261,7 +261,7 @@ macro_rules! lc {
     ($($name:ident = $k:literal),*) => {$(
         #[kani::proof]
         #[kani::unwind(4)]
-        fn $name() { leeway_concrete($k); }
+        pub fn $name() { leeway_concrete($k); }
     )*};
 }
 lc!(time_leeway_case0_borrow = 0, time_leeway_case1_carry = 1, time_leeway_case2_large = 2, time_leeway_case3_whole = 3,
@@ -314,7 +314,7 @@ macro_rules! sc {
     ($($name:ident = ($a:literal, $b:literal, $w:literal)),*) => {$(
         #[kani::proof]
         #[kani::unwind(8)]
-        fn $name() { string_claim::<$a, $b>($w); }
+        pub fn $name() { string_claim::<$a, $b>($w); }
     )*};
 }
 /// lengths that differ by 256: a length comparison done in 8 bits would take them for equal
@@ -322,7 +322,7 @@ macro_rules! sc_long {
     ($($name:ident = ($a:literal, $b:literal, $w:literal)),*) => {$(
         #[kani::proof]
         #[kani::unwind(260)]
-        fn $name() { string_claim::<$a, $b>($w); }
+        pub fn $name() { string_claim::<$a, $b>($w); }
     )*};
 }
 sc_long!(subject_257_1 = (257, 1, 0), issuer_1_257 = (1, 257, 1), audience_256_0 = (256, 0, 2));
